@@ -7,6 +7,7 @@ toolchain go1.25.13
 require (
 	github.com/benbjohnson/litestream v0.0.0
 	github.com/superfly/ltx v0.5.2
+	modernc.org/sqlite v1.49.1
 )
 
 require (
@@ -29,7 +30,6 @@ require (
 	modernc.org/libc v1.72.0 // indirect
 	modernc.org/mathutil v1.7.1 // indirect
 	modernc.org/memory v1.11.0 // indirect
-	modernc.org/sqlite v1.49.1 // indirect
 )
 
 replace github.com/benbjohnson/litestream => /repo
